@@ -63,7 +63,17 @@ NetTable == <<
     Net("hrpdigit", "l1x",  <<108, 49, 120>>,     33,  34,  35, <<1, 2, 3, 4>>, <<1, 2, 3, 5>>, TRUE),
     Net("hrpone",   "k",    <<107>>,              33,  34,  35, <<1, 2, 3, 4>>, <<1, 2, 3, 5>>, TRUE),
     [Net("hrpupper", "up",  <<117, 112>>,         33,  34,  35, <<1, 2, 3, 4>>, <<1, 2, 3, 5>>, TRUE)
-        EXCEPT !.reghrp = "UP"] >>
+        EXCEPT !.reghrp = "UP"],
+    \* prefix lengths that make an address string 66 characters long, the length of a
+    \* hex-encoded compressed public key: 6 (P2WSH, P2TR), 26 (P2WPKH), 54 (P2A).
+    \* (130, the other hex key length, is beyond the 90 characters of a bech32 string.)
+    Net("hrplen6",  "sixsix", <<115, 105, 120, 115, 105, 120>>, 33, 34, 35, <<1, 2, 3, 4>>, <<1, 2, 3, 5>>, TRUE),
+    Net("hrplen26", "abcdefghijklmnopqrstuvwxyz",
+        <<97, 98, 99, 100, 101, 102, 103, 104, 105, 106, 107, 108, 109, 110, 111, 112, 113, 114, 115, 116, 117, 118, 119, 120, 121, 122>>,
+        33, 34, 35, <<1, 2, 3, 4>>, <<1, 2, 3, 5>>, TRUE),
+    Net("hrplen54", "abcdefghijklmnopqrstuvwxyzabcdefghijklmnopqrstuvwxyzab",
+        <<97, 98, 99, 100, 101, 102, 103, 104, 105, 106, 107, 108, 109, 110, 111, 112, 113, 114, 115, 116, 117, 118, 119, 120, 121, 122, 97, 98, 99, 100, 101, 102, 103, 104, 105, 106, 107, 108, 109, 110, 111, 112, 113, 114, 115, 116, 117, 118, 119, 120, 121, 122, 97, 98>>,
+        33, 34, 35, <<1, 2, 3, 4>>, <<1, 2, 3, 5>>, TRUE) >>
 
 NetNames == {NetTable[i].name : i \in 1..Len(NetTable)}
 NetOf(name) == CHOOSE n \in Range(NetTable) : n.name = name
